@@ -343,9 +343,13 @@ func (o *rotatingFile) read(ctx context.Context, op fsnotify.Op) error {
 
 	currentSizeBytes := fInfo.Size()
 
-	if currentSizeBytes < o.lastSz {
-		// If true, then the file was likely rotated, so we need
-		// to start from the beginning of the file.
+	if currentSizeBytes < o.lastSz || currentSizeBytes < o.getOffset() {
+		// If true, then the file was likely rotated or truncated,
+		// so we need to start from the beginning of the file.
+		//
+		// The offset is checked as well because lastSz is still
+		// zero when the offset comes from the initial read of the
+		// file at start-up.
 		o.setOffset(0)
 	}
 
